@@ -44,6 +44,10 @@ pub enum Item {
     /// then defines `fn-h` (the second line is parsed under the new setting: syntax error),
     /// 4 an alias whose value turns it off, defines and calls `fn-h`
     Portable(u8),
+    /// `exec <inc3`: when the commands come from standard input, the shell goes on reading them
+    /// from the new standard input (two marks, then end of input); otherwise only the commands'
+    /// standard input changes and the script continues
+    ExecStdin,
     /// multi-line function definition, then a call
     Func,
     /// `mark \` + newline + `N`
@@ -412,6 +416,19 @@ fn build(c: &InputCase, stdin_mode: bool) -> Built {
                     }
                 }
             }
+            Item::ExecStdin => {
+                text.push_str("exec <inc3\n");
+                if live {
+                    status = Sym::Known(0);
+                    if stdin_mode {
+                        trace.push((vec!["7101".into()], Sym::Known(0)));
+                        trace.push((vec!["7102".into()], Sym::Known(0)));
+                        // nothing of the old input is read any more
+                        aborted = true;
+                        classes.push("commands-continue-from-the-new-standard-input");
+                    }
+                }
+            }
             Item::Func => {
                 let a = next_mark;
                 next_mark += 1;
@@ -632,6 +649,7 @@ fn run_mode(c: &InputCase, mode: Mode, b: &Built) -> Result<(), String> {
         }
     };
     s.files.push(("inc".into(), FileSpec::Regular { content: "mark 7001\nmark 7002\n".into(), mode: 0o644, exec: false }));
+    s.files.push(("inc3".into(), FileSpec::Regular { content: "mark 7101\nmark 7102\n".into(), mode: 0o644, exec: false }));
     let r = vsys::run(&s);
     let ctx = |m: String| format!("{m} [mode {mode:?} chunks {:?} sched {:?}]\nscript:\n{}stderr: {:?}", c.chunks, c.sched, b.text, r.stderr);
     if let Some(p) = &r.panic {
@@ -708,6 +726,7 @@ fn arb_item() -> impl Strategy<Value = Item> {
         2 => (prop::collection::vec(prop_oneof![Just("mark 9700".to_string()), Just("x y".to_string()), Just("".to_string())], 0..3), 0u8..2)
             .prop_map(|(lines, then)| Item::HereDocThen { lines, then }),
         3 => (0u8..5).prop_map(Item::Portable),
+        1 => Just(Item::ExecStdin),
         1 => Just(Item::Func),
         1 => Just(Item::Continuation),
         1 => Just(Item::Eval),
